@@ -517,6 +517,53 @@ def classify(f):
     return None
 
 
+def fixed_cases():
+    """two different default namespaces in one text: PROV-JSON whose bundles carry a "default" entry of their own in
+    their prefix block (bare record names, bare bundle keys, bare names as values), PROV-XML whose inner elements
+    re-declare xmlns — every bare name belongs to the default namespace in scope where it stands"""
+    A, B, C = "http://a.example.org/ns/", "http://b.example.org/ns/", "http://c.example.org/ns/"
+    out = []
+    for doc_default in (A, None):
+        for key in ("b1", "ex:b1"):
+            t = {"prefix": {"ex": "http://example.org/"}, "entity": {"ex:e0": {"ex:k": "v"}}}
+            if doc_default:
+                t["prefix"]["default"] = doc_default
+                t["entity"]["e1"] = {"colour": "red"} if False else {"ex:k": {"$": "e1", "type": "prov:QUALIFIED_NAME"}}
+            if key == "b1" and not doc_default:
+                continue
+            t["bundle"] = {key: {"prefix": {"default": B},
+                                 "entity": {"e2": {}, "ex:e3": {"prov:type": {"$": "T", "type": "prov:QUALIFIED_NAME"}}},
+                                 "activity": {"a2": {}},
+                                 "used": {"u2": {"prov:activity": "a2", "prov:entity": "e2"}},
+                                 "wasDerivedFrom": {"_:d1": {"prov:generatedEntity": "ex:e3", "prov:usedEntity": "e2"}}}}
+            out.append(("fixed:json-two-defaults", t))
+            t2 = copy.deepcopy(t)
+            t2["bundle"]["ex:b2"] = {"prefix": {"default": C}, "agent": {"ag": {}}, "entity": {"e2": {}},
+                                     "wasAttributedTo": {"_:w": {"prov:entity": "e2", "prov:agent": "ag"}}}
+            out.append(("fixed:json-three-defaults", t2))
+    PROVNS = "http://www.w3.org/ns/prov#"
+    for root_default in (A, None):
+        rd = ' xmlns="%s"' % root_default if root_default else ""
+        out.append(("fixed:xml-inner-default", """<?xml version="1.0" encoding="UTF-8"?>
+<prov:document xmlns:prov="%s" xmlns:ex="http://example.org/"%s>
+  <prov:entity prov:id="%s"/>
+  <prov:entity xmlns="%s" prov:id="e2"><ex:k>v</ex:k></prov:entity>
+  <prov:activity xmlns="%s" prov:id="a2"/>
+  <prov:wasDerivedFrom>
+    <prov:generatedEntity xmlns="%s" prov:ref="e2"/>
+    <prov:usedEntity prov:ref="%s"/>
+  </prov:wasDerivedFrom>
+  <prov:used xmlns="%s"><prov:activity prov:ref="a2"/><prov:entity prov:ref="e2"/></prov:used>
+  <prov:bundleContent prov:id="ex:b1" xmlns="%s">
+    <prov:entity prov:id="e2"/>
+    <prov:agent prov:id="ag"/>
+    <prov:wasAttributedTo><prov:entity prov:ref="e2"/><prov:agent prov:ref="ag"/></prov:wasAttributedTo>
+  </prov:bundleContent>
+</prov:document>
+""" % (PROVNS, rd, "e1" if root_default else "ex:e1", B, C, B, "e1" if root_default else "ex:e1", C, C)))
+    return out
+
+
 def run(tier, seed, log, model_runs=True, enlarged=False):
     t0 = time.time()
     rng = random.Random(seed)
@@ -533,6 +580,7 @@ def run(tier, seed, log, model_runs=True, enlarged=False):
             if f.endswith(".json"):
                 cases.append(("corpus:" + f, json.load(open(os.path.join(cdir, f)))["tree"]))
                 ncorp += 1
+    cases.extend(fixed_cases())
     for i in range(n_gen):
         cases.append(("gen", gen_tree(rng)))
     corp = corpus_trees()
